@@ -3,6 +3,7 @@ From Coq Require Import List String.
 From VQ.Gen Require Import w_fsq.
 Import ListNotations.
 Open Scope string_scope.
-Lemma pin_w_fsq : w_fsq =
+Definition pinned_w_fsq : list string :=
   [].
+Lemma pin_w_fsq : w_fsq = pinned_w_fsq.
 Proof. reflexivity. Qed.
